@@ -9,7 +9,9 @@ ID = "C05"
 LEVEL = "exploration"
 RULE = ("seeded generator of advanceBlockchain / updateAncestorBlock requests: 1..N block "
         "headers built from field lists (17..20 fields, tiny/regular field sizes covering RLP "
-        "short and long string and list forms), coinbase fields built from a full coinbase "
+        "short and long string and list forms, plus headers whose RLP list payload - without the "
+        "merge-mining fields, in the ancestor-stripped form, or whole - is exactly 54..57 or "
+        "255..257 bytes long), coinbase fields built from a full coinbase "
         "transaction split at every kind of 64-byte boundary (expected hash = reversed "
         "SHA256d of the full transaction, own SHA-256), 0..10 brothers per block; simulated "
         "device policies: chunk sizes (firmware-like, constant, random, over-asking), asks or "
@@ -25,10 +27,11 @@ ASSUMPTIONS = [
     "own Keccak-256 / SHA-256 implementations self-check against known vectors and hashlib",
 ]
 FLOORS = {"quick": {"evaluations": 300, "headers_compared": 900, "brother_lists_compared": 150,
-                    "ancestor_requests": 80, "partial_or_early_stops": 40},
+                    "ancestor_requests": 80, "partial_or_early_stops": 40,
+                    "boundary_length_headers": 100},
           "thorough": {"evaluations": 15000, "headers_compared": 100000,
                        "brother_lists_compared": 20000, "ancestor_requests": 4000,
-                       "partial_or_early_stops": 2000}}
+                       "partial_or_early_stops": 2000, "boundary_length_headers": 10000}}
 
 
 def shards(tier, seed):
@@ -52,18 +55,26 @@ def run_case(acc, cseed, spec, stack_holder):
     maxb = spec["max_blocks"]
     nb = rng.choice([1, 2, 3, rng.randint(1, maxb), rng.randint(1, maxb)])
     tiny = rng.random() < 0.1
+    boundary = rng.random() < 0.2
     blocks = []
     brothers = []
+
+    def mk(nfs):
+        # boundary: one of the header's RLP list payloads sits exactly where the
+        # list prefix changes form (54..57, 255..257 bytes)
+        if boundary and rng.random() < 0.6:
+            acc.count("boundary_length_headers")
+            return gb.gen_boundary_block(rng, rng.choice(nfs))
+        return gb.gen_block(rng, rng.choice(nfs), tiny=tiny)
     for _ in range(nb):
         if is_adv:
-            blocks.append(gb.gen_block(rng, rng.choice([19, 20]), tiny=tiny))
+            blocks.append(mk([19, 20]))
             nbro = rng.choice([0, 0, 1, 2, 3, 10, rng.randint(0, 10)])
             if nb > 10:
                 nbro = rng.choice([0, 0, 0, 1, 2])
-            brothers.append([gb.gen_block(rng, rng.choice([19, 20]), tiny=tiny)
-                             for _ in range(nbro)])
+            brothers.append([mk([19, 20]) for _ in range(nbro)])
         else:
-            blocks.append(gb.gen_block(rng, rng.choice([17, 18, 19, 20]), tiny=tiny))
+            blocks.append(mk([17, 18, 19, 20]))
     pol = {}
     stop = None
     r = rng.random()
